@@ -28,7 +28,7 @@ EITHER = ['9-lead', '-lead', 'x--double', 'trail-']          # rules I could not
 # names that end in _ref: one underscore, several, a leading custom prefix, 'ref' also inside the name
 REF_NAMES = ['thing_ref', 'x_owner_host_ref', 'dst_host_ref', 'a_b_c_ref', 'ref_ref', 'my_ref_thing_ref', 'x_ref']
 PROPSETS = ['legal', 'legal2', 'legal_ref', 'legal_names', 'bad_digit', 'bad_upper_first', 'bad_hyphen', 'bad_short', 'bad_upper_inside',
-            'bad_space', 'bad_dot', 'bad_long', 'bad_nonascii', 'ref_nonref', 'refs_nonref', 'empty']
+            'bad_space', 'bad_dot', 'bad_long', 'bad_nonascii', 'ref_nonref', 'refs_nonref', 'empty', 'legal_optional_only']
 # rule-breaking 2.1 property names, with prefixes that are themselves legal names (id, type, name, created ...)
 BAD_NAMES = {
     'bad_digit': ['7count', '9id', '0_x'],
@@ -66,7 +66,7 @@ class C19(Profile):
               'custom_roundtrip', 'custom_new_version', 'custom_store_roundtrip', 'custom_marking_used', 'custom_extension_used',
               'either_name', 'extension_name_taken', 'toplevel_extension_used', 'two_toplevel_extensions_on_one_object',
               'registered_toplevel_extension_next_to_unregistered', 'custom_instance_with_supplied_extension',
-              'supplied_extension_next_to_defining_extension']
+              'supplied_extension_next_to_defining_extension', 'custom_marking_with_empty_definition']
     rule = ('plans: 20-60 ops: registrations through the four decorators of both spec versions with names from a pool of fresh, already '
             'taken (built-in, earlier in the run, other category) and rule-breaking names and with legal / rule-breaking property lists, the '
             'extension_name form; interleaved with parse (strict/custom mode, version named or not), class_for_type, construction, '
@@ -164,6 +164,10 @@ class C19(Profile):
         ps = op['props']
         if kind == 'marking' or kind == 'extension':
             base = [('name', StringProperty(required=True))]
+        if ps == 'legal_optional_only':
+            if kind == 'marking':
+                return [('note', StringProperty()), ('level', IntegerProperty())], 'legal'      # nothing required: {} is a valid definition
+            return base + [('note', StringProperty())], 'legal'
         if ps == 'legal':
             return base + [('count', IntegerProperty())], 'legal'
         if ps == 'legal2':
@@ -564,8 +568,19 @@ class C19(Profile):
                 world.probe('custom_store_roundtrip')
         elif cat == 'markings':
             V = s.v21 if ver == '2.1' else s.v20
-            o = call(lambda: V.MarkingDefinition(id=C.mkid('marking-definition', n), created='2017-01-20T00:00:00.000Z',
-                                                 definition_type=name, definition=cls(name='m')))
+            if info['props'] == 'legal_optional_only':
+                # a marking type without required properties, used with an EMPTY definition (as instance or as {}); 2.1 rejects a
+                # marking-definition without content unless it carries extensions, so a value is given there
+                dfn = (cls() if op['a'] % 2 else {}) if ver == '2.0' else cls(note='n')
+                o = call(lambda: V.MarkingDefinition(id=C.mkid('marking-definition', n), created='2017-01-20T00:00:00.000Z',
+                                                     definition_type=name, definition=dfn))
+                if not o.ok:
+                    raise Violation('custom-instances', 'C19.use/marking-construct-refused/%s' % type(o.exc).__name__,
+                                    dict(name=name, ver=ver, definition=repr(dfn)[:80], exc=repr(o.exc)[:300]))
+                world.probe('custom_marking_with_empty_definition' if ver == '2.0' else 'custom_marking_used')
+            else:
+                o = call(lambda: V.MarkingDefinition(id=C.mkid('marking-definition', n), created='2017-01-20T00:00:00.000Z',
+                                                     definition_type=name, definition=cls(name='m')))
             if o.ok:
                 text = o.value.serialize()
                 back = call(s.parse, text, version=ver)
